@@ -24,28 +24,6 @@ theorem c02_entries_are_segments (a : Asset) (r : Rep) (h : Contig r) (hc : Clos
     listFrom r first count (S a r first) = (List.range' first count).map (fun k => (S a r k, segDur r k)) :=
   listFrom_spec a r h hc first count
 
-/-- ticks elapsed (plus offset) at the instant `x` ms after stream start: the argument of the edge search after the
-carry into the wrap count -/
-theorem edge_instant (a : Asset) (r : Rep) (hadm : a.loopMS * r.T = 1000 * r.dur) (hc : Closes a r)
-    (x atoMS : Nat) (hl : 0 < a.loopMS) (hD : 0 < r.dur) :
-    let relNow := (x % a.loopMS + atoMS) * r.T / 1000
-    (x / a.loopMS + relNow / r.dur) * wrapDur a r + relNow % r.dur = (x + atoMS) * r.T / 1000 := by
-  intro relNow
-  rw [hc.1]
-  have e1 : (x / a.loopMS + relNow / r.dur) * r.dur + relNow % r.dur = x / a.loopMS * r.dur + relNow := by
-    rw [Nat.add_mul]
-    have := Nat.div_add_mod relNow r.dur
-    rw [Nat.mul_comm] at this
-    omega
-  rw [e1]
-  have hx := Nat.div_add_mod x a.loopMS
-  have e2 : (x + atoMS) * r.T = 1000 * (x / a.loopMS * r.dur) + (x % a.loopMS + atoMS) * r.T := by
-    have : 1000 * (x / a.loopMS * r.dur) = x / a.loopMS * (a.loopMS * r.T) := by
-      rw [hadm, Nat.mul_left_comm]
-    rw [this, ← Nat.mul_assoc, ← Nat.add_mul, Nat.mul_comm (x / a.loopMS) a.loopMS]
-    congr 1; omega
-  rw [e2, Nat.mul_add_div (by decide : 0 < 1000)]
-
 /-- **The MPD's live edge is the segment handler's live edge.**  If the edge search returns segment `k` for the
 instant `x` ms after stream start and offset `atoMS`, then segment `k` is *not too early* for the handler at that
 instant and segment `k+1` *is* too early: the last SegmentTimeline entry is the newest segment that has ended (less
@@ -82,6 +60,50 @@ theorem c02_edge_matches_server (a : Asset) (r : Rep) (h : Contig r) (hc : Close
   · rw [c04_too_early_iff]
     unfold nowScaled availScaled
     exact early_of (E a r (r.N * w' + i + 1)) startS r.T nowMS atoMS τ sp.2.2 (by omega) hnow
+
+/-- from the tick comparison to the handler's decision -/
+theorem tau_not_early (a : Asset) (r : Rep) (startS nowMS tsbdS atoMS k : Nat) (hnow : startS * 1000 ≤ nowMS)
+    (h : E a r k ≤ (nowMS - startS * 1000 + atoMS) * r.T / 1000) :
+    phase (checkTime (E a r k + startS * r.T) r.T nowMS tsbdS (.ms atoMS)) ≥ 1 := by
+  generalize hτ : (nowMS - startS * 1000 + atoMS) * r.T / 1000 = τ at h
+  have hdm := Nat.div_add_mod ((nowMS - startS * 1000 + atoMS) * r.T) 1000
+  rw [hτ] at hdm
+  have : ¬ phase (checkTime (E a r k + startS * r.T) r.T nowMS tsbdS (.ms atoMS)) = 0 := by
+    rw [c04_too_early_iff]
+    unfold nowScaled availScaled
+    have := notEarly_of (E a r k) startS r.T nowMS atoMS τ h (by omega) hnow
+    omega
+  omega
+
+theorem tau_early (a : Asset) (r : Rep) (startS nowMS tsbdS atoMS k : Nat) (hnow : startS * 1000 ≤ nowMS)
+    (h : (nowMS - startS * 1000 + atoMS) * r.T / 1000 < E a r k) :
+    phase (checkTime (E a r k + startS * r.T) r.T nowMS tsbdS (.ms atoMS)) = 0 := by
+  generalize hτ : (nowMS - startS * 1000 + atoMS) * r.T / 1000 = τ at h
+  have hdm := Nat.div_add_mod ((nowMS - startS * 1000 + atoMS) * r.T) 1000
+  have hml := Nat.mod_lt ((nowMS - startS * 1000 + atoMS) * r.T) (by decide : 0 < 1000)
+  rw [hτ] at hdm
+  rw [c04_too_early_iff]
+  unfold nowScaled availScaled
+  exact early_of (E a r k) startS r.T nowMS atoMS τ h (by omega) hnow
+
+/-- **The last SegmentTimeline entry is the newest segment that has ended (less availabilityTimeOffset)** — stated on
+what `generateTimelineEntries` returns, not only on its edge search: either nothing is listed and the handler refuses
+even segment 0 as too early, or the list is not empty, its last number `startNr + length − 1` is a segment the handler
+does not refuse as too early, and the next number is refused with 425. -/
+theorem c02_last_entry_newest_ended (a : Asset) (r : Rep) (h : Contig r) (hc : Closes a r)
+    (hadm : a.loopMS * r.T = 1000 * r.dur) (hl : 0 < a.loopMS)
+    (startS nowMS tsbdS atoMS : Nat) (hnow : startS * 1000 ≤ nowMS) :
+    ((genTimeline r (calcWrapTimes a startS nowMS tsbdS) atoMS).entries = [] ∧
+      phase (checkTime (E a r 0 + startS * r.T) r.T nowMS tsbdS (.ms atoMS)) = 0) ∨
+    (∃ k : Nat, (genTimeline r (calcWrapTimes a startS nowMS tsbdS) atoMS).startNr +
+        ((genTimeline r (calcWrapTimes a startS nowMS tsbdS) atoMS).entries.length : Int) - 1 = (k : Int) ∧
+      (genTimeline r (calcWrapTimes a startS nowMS tsbdS) atoMS).entries ≠ [] ∧
+      phase (checkTime (E a r k + startS * r.T) r.T nowMS tsbdS (.ms atoMS)) ≥ 1 ∧
+      phase (checkTime (E a r (k + 1) + startS * r.T) r.T nowMS tsbdS (.ms atoMS)) = 0) := by
+  rcases genTimeline_last a r h hc hadm hl startS nowMS tsbdS atoMS hnow with ⟨_, he, ht⟩ | ⟨k, hk, _, hne, h1, h2⟩
+  · exact Or.inl ⟨he, tau_early a r startS nowMS tsbdS atoMS 0 hnow ht⟩
+  · exact Or.inr ⟨k, hk, hne, tau_not_early a r startS nowMS tsbdS atoMS k hnow h1,
+      tau_early a r startS nowMS tsbdS atoMS (k + 1) hnow h2⟩
 
 /-- non-vacuity: testpic_2s V300 at 100.3 s after start, no offset: the edge search returns segment 49
 (`w' = 12, i = 1`): `[98 s, 100 s)` has ended, `[100 s, 102 s)` has not. -/
